@@ -165,6 +165,10 @@ CORPUS = [
     "from a\ngroup {d = u + 1} (sort id | take 2 | derive {r = row_number this})\n",
     # a joined sub-pipeline that uses a column of its input by name, and the outer pipeline refers to the same column of the joined side (round-6 seed C16-10)
     "from a\njoin side:inner m = (from a | filter id > 1 | derive band = u / 100) (a.u == m.id)\nselect {a.id, mgr = m.id, m.band}\nsort {a.id}\n",
+    # a window inside a group, followed by more transforms of that group: they keep the partition (round-7 seed C16-12)
+    "from a\ngroup u (window expanding:true (derive running = (sum id)) | aggregate {peak = max running})\n",
+    # a computed group key, and a join of an inline sub-pipeline inside the group: the key is declared in the group's own pipeline (round-7 seed C16-13)
+    "from a\ngroup {kk = u + 1} (join (from b | derive w = v * 2 | select {id, w}) (==id) | aggregate {s = sum w})\n",
     # a constant with one node id used as a whole column inside a let-table and as an operand in the main pipeline (round-6 seed C16-11)
     "let threshold = 100\nlet big = (from a | derive {t = threshold} | filter u > t)\nfrom big\nfilter u > threshold * 2\n",
 ]
